@@ -135,8 +135,9 @@ theorem mergeRuns_after_leave_merge {keep : Keep} {l' r' : List HTree} {a b : HT
 
 /-! ### remove -/
 
-theorem remove_exact {f : Forest} {n : Nat} (inv : f.Inv) (norm : f.Normal) (live : f.isLive n = true) :
-    (f.remove n).1 = specRemove (Keep.resident n) n f := by
+theorem remove_spec {f : Forest} {n : Nat} {keep : Keep} (hkeep : ∀ a b, a ≠ n → keep a b = true)
+    (inv : f.Inv) (norm : f.Normal) (live : f.isLive n = true) :
+    (f.remove n).1 = specRemove keep n f := by
   have nd := inv.nodup
   unfold Forest.isLive at live
   cases hg : f.get? n with
@@ -208,7 +209,12 @@ theorem remove_exact {f : Forest} {n : Nat} (inv : f.Inv) (norm : f.Normal) (liv
       have hak : a.handle ≠ k.handle := tl a (List.mem_append_right _ List.mem_cons_self)
       apply s.congr
       simp only [Function.comp]
-      rw [hdrop, mergeRuns_after_leave_merge hl (noAdj_tail hkr) hx hy (by simp [Keep.resident, hak])]
+      rw [hdrop, mergeRuns_after_leave_merge hl (noAdj_tail hkr) hx hy (hkeep _ _ hak)]
       simp
+
+theorem Keep.resident_spec (n : Nat) : ∀ a b, a ≠ n → Keep.resident n a b = true := by
+  intro a b h; simp [Keep.resident, h]
+
+theorem Keep.earlier_spec (n : Nat) : ∀ a b, a ≠ n → Keep.earlier a b = true := fun _ _ _ => rfl
 
 end XotModel
